@@ -32,14 +32,14 @@ func init() {
 		Rule: "boot order: all 65536 boot numbers, each alone, and all lists of length 0..4 over {0000,0001,001A,00FF,ABCD,FFFF} in every order; the store holds BootOrder and one load option per number under the firmware's name Boot+4 upper-case hex digits; " +
 			"oracle: GetBootOrder returns exactly those names in order and GetBootEntry(name) yields the description stored for that number, through the Efivarfs methods and through the package-level twins efi.GetBootOrder / efi.GetBootEntry over the same files. " +
 			"load options: attributes x descriptions x every ordered node sequence of length 0..3 over {PCI, ACPI, HD-MBR, HD-GPT, File, FvFile, USB} x per-kind field values, built by an independent encoder; oracle: every field recovered, " +
-			"File/HD nodes parse as the UEFI text form with equal field values; every BMP character and non-BMP characters across the planes as file path and description; every ordered pair of 15 options decoded into one reused EFILoadOption value (second decode exact, the node slice kept from the first unchanged). non-trivial = all oracle clauses evaluated; distinct = distinct encoded input",
+			"File/HD nodes parse as the UEFI text form with equal field values; every BMP character and non-BMP characters across the planes as file path and description; every sequence of 1..3 file-path nodes over 15 path names with/without separators at either end; every ordered pair of 15 options decoded into one reused EFILoadOption value (second decode exact, the node slice kept from the first unchanged). non-trivial = all oracle clauses evaluated; distinct = distinct encoded input",
 		Assumptions: []string{"independent encoder dpgen from UEFI 2.8 sections 3.1.3/10.3", "HD text form per UEFI 10.6.1.6 compared by value (padding and hex case not judged)"},
 		Units: func(tier string) []string {
 			u := []string{"bootnum#0", "bootnum#1", "bootnum#2", "bootnum#3", "bootnum#4", "bootnum#5", "bootnum#6", "bootnum#7", "bootlists"}
 			for i := range c18Kinds {
 				u = append(u, "loadopt#"+strconv.Itoa(i))
 			}
-			return append(u, "hdtext", "pathchars", "reuse")
+			return append(u, "hdtext", "pathchars", "reuse", "filepaths")
 		},
 		Run:    c18Run,
 		Budget: dur(3*time.Minute, 15*time.Minute),
@@ -561,6 +561,25 @@ func c18Run(c *hx.Ctx, tier, unit string) {
 			one(r)
 		}
 		one(0x10FFFF)
+	case unit == "filepaths":
+		// a path split over consecutive file-path nodes (the specification allows it): every sequence of
+		// one to three nodes over path names with and without separators at either end, empty, only
+		// separators, forward slashes, dots. Each node's name is recovered as it was encoded.
+		names := []string{"\\", "\\EFI\\", "\\EFI", "EFI\\", "EFI", "", "\\\\", "\\\\x", "x\\\\", "/", "/EFI/", ".", "..\\", " ", "\\ "}
+		var rec func(cur []dpgen.Node)
+		rec = func(cur []dpgen.Node) {
+			if len(cur) > 0 {
+				c18LoadOption(c, dpgen.LoadOption{Attributes: 1, Description: "split path", Nodes: append([]dpgen.Node{}, cur...)})
+				c18LoadOption(c, dpgen.LoadOption{Attributes: 1, Description: "split path behind a hard drive", Nodes: append([]dpgen.Node{c18NodeVariants("HD-GPT", false)[0]}, cur...)})
+			}
+			if len(cur) == 3 {
+				return
+			}
+			for _, n := range names {
+				rec(append(cur, dpgen.Node{Kind: "File", Path: n}))
+			}
+		}
+		rec(nil)
 	case unit == "reuse":
 		var opts []dpgen.LoadOption
 		for _, kd := range c18Kinds {
